@@ -30,5 +30,22 @@ machine class, machines nested in callbacks of each other), or only for particul
 unhashable, very large counts).  The failure must still be a
 violation of the property as stated above, not of something else.
 
+What the tester is known to generate by now (so aim elsewhere): callbacks by name / function object / bound method of
+a helper object / decorator / instance attribute / functools.partial / wraps-decorated / lambda, on machine, model,
+constructor listeners, late listeners (also equal, unhashable, falsy, class-object and proxy listeners); guards as
+methods, attributes, properties that may raise, boolean and comparison expressions; coroutine callbacks, awaitable
+objects, Futures; return values of every kind (falsy, equal-to-everything, exception objects); exceptions deriving
+from Exception, BaseException, StopIteration, RuntimeError, AttributeError, KeyError, TypeError, falsy exceptions,
+TransitionNotAllowed; events declared by event=, lists, Event objects (before or after the states), class attributes,
+|, |=, decorators, from_.any() (also sharing an event with explicit transitions), multi-target / multi-source calls,
+States dicts, Enum / IntEnum sources with aliases and falsy members, inheritance (base + subclass adding transitions,
+renaming events, adding events over inherited transitions), MachineMixin models (also with cooperative __init__);
+unknown event names including names of other attributes; state values of every kind including ones spelled like other
+ids; start_value, stored state, external writes, None writes; copies (copy, deepcopy, pickle, copies of copies, before
+activation) with listeners attached on either side; several instances / classes / threads / tasks / event loops,
+machines driven from inside callbacks of other machines, add_listener from inside callbacks and from other threads,
+cancelled tasks, failing callbacks under concurrency, queues of thousands of events; diagrams of classes and of
+instances in every state, after late listeners, with start_value, with duplicate names, before / after subclasses.
+
 Already tried for this property (do not repeat):
 """ + "\n".join(prior))
